@@ -17,6 +17,7 @@ pub struct WrapDb<'a> {
     pub panic_at: Cell<Option<u64>>,
     /// emit one `DbCall` event per callback into the verif sink (to locate crash points)
     pub log_calls: Cell<bool>,
+    pub log_serves: Cell<bool>,
 }
 
 /// Payload of an injected panic.
@@ -29,6 +30,15 @@ impl<'a> WrapDb<'a> {
             calls: Cell::new(0),
             panic_at: Cell::new(None),
             log_calls: Cell::new(false),
+            log_serves: Cell::new(false),
+        }
+    }
+    /// `Serve` event: an item was handed out (used by the logdb mode to see what the logging wrapper asked for)
+    fn serve(&self, kind: &str, id: u32, name: String) {
+        if self.log_serves.get() {
+            chalk_ir::verif::emit("Serve", |f| {
+                f.str("kind", kind).int("id", id as usize).str("name", &name);
+            });
         }
     }
     fn tick(&self, _what: &str) {
@@ -73,14 +83,17 @@ impl<'a> RustIrDatabase<I> for WrapDb<'a> {
     }
     fn associated_ty_data(&self, ty: AssocTypeId<I>) -> Arc<AssociatedTyDatum<I>> {
         self.tick("associated_ty_data");
+        self.serve("assoc", ty.0.index, self.inner.assoc_type_name(ty));
         self.inner.associated_ty_data(ty)
     }
     fn trait_datum(&self, id: TraitId<I>) -> Arc<TraitDatum<I>> {
         self.tick("trait_datum");
+        self.serve("trait", id.0.index, self.inner.trait_name(id));
         self.inner.trait_datum(id)
     }
     fn adt_datum(&self, id: AdtId<I>) -> Arc<AdtDatum<I>> {
         self.tick("adt_datum");
+        self.serve("adt", id.0.index, self.inner.adt_name(id));
         self.inner.adt_datum(id)
     }
     fn coroutine_datum(&self, id: CoroutineId<I>) -> Arc<CoroutineDatum<I>> {
@@ -105,6 +118,7 @@ impl<'a> RustIrDatabase<I> for WrapDb<'a> {
     }
     fn impl_datum(&self, id: ImplId<I>) -> Arc<ImplDatum<I>> {
         self.tick("impl_datum");
+        self.serve("impl", id.0.index, String::new());
         self.inner.impl_datum(id)
     }
     fn associated_ty_from_impl(
@@ -134,7 +148,11 @@ impl<'a> RustIrDatabase<I> for WrapDb<'a> {
         binders: &CanonicalVarKinds<I>,
     ) -> Vec<ImplId<I>> {
         self.tick("impls_for_trait");
-        self.inner.impls_for_trait(trait_id, parameters, binders)
+        let r = self.inner.impls_for_trait(trait_id, parameters, binders);
+        for i in &r {
+            self.serve("impl", i.0.index, String::new());
+        }
+        r
     }
     fn local_impls_to_coherence_check(&self, trait_id: TraitId<I>) -> Vec<ImplId<I>> {
         self.tick("local_impls_to_coherence_check");
